@@ -181,6 +181,12 @@ class Conn:
             self.reader.feed_eof()
 
     def reset(self, exc=None):
+        if self.client_closed and not self.peer_closed:
+            # the client has closed already; the link now breaks under whatever is still waiting on the transport
+            self.peer_closed = True
+            self.transport_lost = True
+            self.lost_exc = exc or ConnectionResetError("peer reset")
+            return
         if not self.peer_closed:
             self.peer_closed = True
             self.transport_lost = True
@@ -303,6 +309,9 @@ class FakeNet:
                     conn.lost_exc = r
                     raise r
                 await asyncio.sleep(r)
+                if conn.transport_lost:
+                    # the connection was lost while this drain() was waiting for the transport to resume
+                    raise conn.lost_exc or ConnectionResetError("Connection lost")
 
 
 def _is_zero(x):
